@@ -1,4 +1,35 @@
-"""Non-Kani engines (E2 mirsym, E3 rc11) plugged into bin/check."""
+"""Non-Kani engines plugged into bin/check: E2 (mirsym: MIR skeleton extraction) + E3 (rc11: bounded axiomatic C11)
+for C05 / C06; E2 path queries for C13 (panic precedes mutation) and C03 (from_owner cleanup edge)."""
+import os, sys, json, subprocess, time
+
+HERE = os.path.dirname(os.path.abspath(__file__))
+VERIF = os.path.dirname(HERE)
+
+
 def run(prop, tier, seed, known):
     reps = []
+    if prop in ("C05", "C06"):
+        outdir = os.path.join(VERIF, "replays", prop, "rc11")
+        os.makedirs(outdir, exist_ok=True)
+        for f in os.listdir(outdir):
+            os.remove(os.path.join(outdir, f))
+        t0 = time.time()
+        p = subprocess.run(["python3-vt", os.path.join(HERE, "rc11_run.py"), prop, tier, str(seed), outdir],
+                           stdout=subprocess.PIPE, stderr=subprocess.PIPE, text=True)
+        last = p.stdout.strip().split("\n")[-1] if p.stdout.strip() else ""
+        try:
+            rep = json.loads(last)
+        except Exception:
+            rep = {"engine": "E2-mirsym+E3-rc11", "inconclusive": ["engine crashed: " + (p.stderr[-1500:] or last[-500:])], "violations": [], "queries": 0}
+        rep["violations"] = [tuple(v) for v in rep.get("violations", [])]
+        rep["wall_s"] = round(time.time() - t0, 1)
+        print("[E3] %s: %d programs, %d queries, %d discharged, %d sat, %d inconclusive, %.0fs" % (
+            prop, rep.get("programs", 0), rep.get("queries", 0), rep.get("discharged", 0), len(rep["violations"]), len(rep.get("inconclusive", [])), rep["wall_s"]), flush=True)
+        reps.append(rep)
+    if prop in ("C13", "C03"):
+        try:
+            import pathq
+            reps += pathq.run(prop, tier, seed)
+        except ImportError:
+            pass
     return reps
